@@ -485,7 +485,12 @@ def sym_pow(ip, a, n):
     f = z3.Function('pw', z3.RealSort(), z3.IntSort(), z3.RealSort())
     if isinstance(a, Cx):
         raise Unsupported("complex ** symbolic int")
-    r = Re(f(sym.zreal(a), n.t))
+    za = sym.zreal(a)
+    r = Re(f(za, n.t))
+    # unfolding instance: a**n == a * a**(n-1) for n >= 1, a**0 == 1
+    ip.ctx.fact(z3.And(z3.Implies(n.t >= 1, f(za, n.t) == za * f(za, n.t - 1)), f(za, z3.IntVal(0)) == 1))
+    from . import diff
+    diff.register(r.t, 'const') if z3.is_const(r.t) else None
     return r
 
 
